@@ -143,6 +143,9 @@ func Unpack(dst, src []byte) ([]byte, error) {
 			src = src[1:]
 			n := copy(dst[start:], src)
 			src = src[n:]
+			if n < len(dst)-start {
+				return dst, io.ErrUnexpectedEOF
+			}
 		}
 	}
 	return dst, nil
